@@ -355,7 +355,7 @@ class HashSeedEngine(Engine):
 
     def _gen_pipeline(self, rng) -> Dict[str, Any]:
         from sim.world.pipeline import (DETECTION_PROFILES, DOMAIN_PROFILES, MAIN_DOMAINS, PFAM_PROFILES, T2PKS_PROFILES,
-                                        module_layout)
+                                        module_layout, terpene_profiles)
         records = []
         hits = []
         domain_hits = []
@@ -397,7 +397,7 @@ class HashSeedEngine(Engine):
                 for j, profile in enumerate(combo):
                     gene = targets[j % len(targets)]
                     aa = sum(e - b for b, e in gene["parts"]) // 3
-                    start = rng.choice([1, 1, 30])
+                    start = rng.choice([s for s in (1, 1, 30, 110, 190) if s + 45 < aa] or [1])
                     hits.append({"cds": gene["name"], "profile": profile, "bitscore": rng.choice([600, 600, 800]),
                                  "evalue": 1e-30, "start": start, "end": min(aa - 1, start + rng.choice([40, 60])),
                                  "qstart": 1, "qend": 60})
@@ -483,6 +483,22 @@ class HashSeedEngine(Engine):
                                "bitscore": rng.choice([80, 80, 120]), "evalue": 1e-20}
                         if not any(o["cds"] == name and o["start"] == start for o in t2pks_hits):
                             t2pks_hits.append(hit)
+        # terpene analysis of terpene protoclusters: complete, high scoring hits of the module's own profiles
+        terpene_hits = []
+        anchors = sorted({hit["cds"] for hit in hits if hit["profile"] == "phytoene_synt"})
+        if anchors and rng.random() < 0.85:
+            extra += ["--enable-terpene"]
+            known = terpene_profiles()
+            by_name = {gene["name"]: gene for record in records for gene in record["genes"]}
+            for name in anchors:
+                aa = sum(e - b for b, e in by_name[name]["parts"]) // 3
+                for _ in range(rng.randint(1, 3)):
+                    profile = rng.choice(known)
+                    span = int(profile["length"] * 0.7)
+                    start = rng.choice([2, 2, 12])
+                    if start + span < aa:
+                        terpene_hits.append({"cds": name, "profile": profile["name"], "start": start, "end": start + span,
+                                             "bitscore": profile["cutoff"] + rng.choice([50, 50, 200]), "evalue": 1e-40})
         # sideloaded annotations: from the command line (a subregion around named genes, or one explicit subregion)
         sideload_cli: List[str] = []
         plain = [gene for record in records for gene in record["genes"] if len(gene["parts"]) == 1]
@@ -498,7 +514,7 @@ class HashSeedEngine(Engine):
                 sideload_cli += ["--sideload-simple", f"{record['id']}:{max(0, gene[0] - 50)}-{min(len(record['seq']), gene[1] + 50)}"]
         return {"records": records, "hits": hits, "sideload_cli": sideload_cli,
                 "domain_hits": {"nrpspksdomains.hmm": domain_hits, "ksdomains.hmm": subtype_hits,
-                                "Pfam-A.hmm": pfam_hits, "t2pks.hmm": t2pks_hits},
+                                "Pfam-A.hmm": pfam_hits, "t2pks.hmm": t2pks_hits, "all_profiles.hmm": terpene_hits},
                 "domain_lengths": lengths, "extra_args": extra}
 
     # ------------------------------------------------------------ children
